@@ -136,7 +136,7 @@ def run(ctx, out):
     lines = []
     for i, (sg, dg, cons, it, focus, use) in enumerate(cases):
         # rules can move any term of either graph into a node position
-        extra = set(str(t) for g in (sg, dg) for tr in g for t in tr if not isinstance(t, BNode))
+        extra = set(str(t) for g in (sg, dg) for tr in g for t in tr if not isinstance(t, BNode)) | set(str(f) for f in focus)
         rx = vcase.regex_table(sg, dg, extra_strings=extra)
         rx_toks = " ".join("%s %s %s %d" % (wire.esc(p), wire.esc(f) if f else "-", wire.esc(s), 1 if b else 0) for p, f, s, b in rx)
         with wire.case_cache():
